@@ -307,6 +307,7 @@ def verify_harness(h, rundir, cap_s, mem_gb, unwindset=None, extra=None, recursi
         cmd += ['--unwindset', ','.join(uws)]
     res['unwindset'] = len(uws)
     res['unwindset_user'] = unwindset
+    res['unwindset_all'] = ','.join(uws)
     if h.get('name_map'):
         try:
             os.remove(h['name_map'])
